@@ -21,6 +21,17 @@ class SimBlank:
     """A listener that provides nothing."""
 
 
+class SimSharedProbe:
+    """A listener meant to be shared by several machines (an audit log): it notes which machine each
+    completed transition belonged to.  Not part of the recorded callbacks."""
+
+    def __init__(self):
+        self.heard = []
+
+    def after_transition(self, event, machine=None):
+        self.heard.append(getattr(machine, "_sim_tag", None))
+
+
 class SimFault(Exception):
     pass
 
